@@ -1,6 +1,6 @@
 (* Properties/C11.v — pinned statements only. *)
 From Boreal Require Import Base.Prelude Base.ListX Base.Bytes Model.Literals Model.AcScan Model.Memory
-  Spec.FragSpec Model.FragCase Proofs.AcScanDecomp Proofs.LimitsProofs Proofs.FragProofs Proofs.FragMemory.
+  Spec.FragSpec Model.FragCase Proofs.AcScanDecomp Proofs.LimitsProofs Proofs.FragProofs Proofs.FragMemory Proofs.FragSearch.
 
 (* the union: for every matcher kind and every limit, the matches of a string after a fragmented scan
    are the concatenation, in region order, of scans of each fetched region started from an empty list
@@ -120,12 +120,40 @@ Proof. vm_compute. repeat split. Qed.
 
 (* Still checked by the correspondence run only (kept as definitions): equality of `on_range` with the
    address-walk specification `spec_range` on every ascending layout (short fetches, described length
-   different from the fetched one, empty regions), and `find_at` = membership on ascending keys. *)
+   different from the fetched one, empty regions). *)
 Definition C11_on_range_statement : Prop :=
   forall regions s e, ascending_regions 0 regions = true ->
     on_range true regions s e = spec_range true regions s e.
-Definition C11_find_at_statement : Prop :=
-  forall t x, Sorted.asc (map abs_off t) -> find_at t x = spec_at t x.
+
+(* `$a at X` / `$a in (lo..hi)`: on a match vector whose absolute addresses are strictly ascending (what
+   ascending region delivery and the sorted insert give) and fit usize, the binary search of
+   VarMatches::find_at is membership and the insertion point used by find_in is the lower bound, so
+   both are the declarative readings of Spec/FragSpec.v.  (C11_region_order_refuted below: without
+   ascending addresses they are not.) *)
+Theorem C11_find_at :
+  forall t x, Sorted.asc (map abs_off t) -> no_overflow t -> find_at t x = spec_at t x.
+Proof. exact find_at_spec. Qed.
+
+Theorem C11_find_in :
+  forall t lo hi, Sorted.asc (map abs_off t) -> no_overflow t -> find_in t lo hi = spec_in t lo hi.
+Proof. exact find_in_spec. Qed.
+
+Theorem C11_binary_search_found :
+  forall keys target, Sorted.asc keys -> keys <> [] ->
+    (fst (binary_search keys target) = true <-> In target keys).
+Proof. exact binary_search_found. Qed.
+
+Definition ex_sorted_t : list smatch :=
+  [ {| sm_base := 0; sm_off := 0; sm_len := 2; sm_data := [97;98]; sm_key := 0 |};
+    {| sm_base := 0; sm_off := 7; sm_len := 2; sm_data := [97;98]; sm_key := 0 |};
+    {| sm_base := 100; sm_off := 0; sm_len := 2; sm_data := [97;98]; sm_key := 0 |};
+    {| sm_base := 200; sm_off := 3; sm_len := 2; sm_data := [97;98]; sm_key := 0 |} ].
+Example C11_find_example :       (* hypotheses of C11_find_at / C11_find_in met by a concrete vector *)
+  Sorted.ascb (map abs_off ex_sorted_t) = true
+  /\ forallb (fun m => sm_off m + sm_base m <=? umax) ex_sorted_t = true
+  /\ find_at ex_sorted_t 100 = true /\ find_at ex_sorted_t 101 = false
+  /\ find_in ex_sorted_t 8 150 = true /\ find_in ex_sorted_t 8 99 = false.
+Proof. vm_compute. repeat split. Qed.
 
 (* DESIGN 9.12 (open finding C11-region-order): regions delivered in descending address order break
    `$a at X`: the match vector is ordered by arrival and the lookup is a binary search *)
@@ -160,4 +188,7 @@ Print Assumptions C11_get_contiguous.
 Print Assumptions C11_on_range_covered.
 Print Assumptions C11_on_range_past_last.
 Print Assumptions C11_on_range_gap_or_failed.
+Print Assumptions C11_find_at.
+Print Assumptions C11_find_in.
+Print Assumptions C11_binary_search_found.
 Print Assumptions C11_region_order_refuted.
